@@ -74,7 +74,7 @@ def check(ctx):
         ctx.check(not bad, "T1-nostamp", f, "Share.%s never touches the stamp" % name,
                   "changing fields (as opposed to updating them) must never alter the share's stamp")
     cr = S.own_method("create")
-    C = FuncView(ctx, cr)
+    C = FuncView(ctx, cr, may_raise=may_raise_attr)
     sets = C.need(C.call_nodes("setattr"), "setattr calls in Share.create")
     tests = C.tests(lambda t: src(t).replace(" ", "") == "nothasattr(self._data,k)")
     ctx.floor("T1-create:guards", len(tests), 3)
@@ -98,7 +98,7 @@ def check(ctx):
               "creating fields stamps only when a new field was added")
     D = ctx.cls("storing", "Data")
     sa = D.own_method("__setattr__")
-    A = FuncView(ctx, sa)
+    A = FuncView(ctx, sa, exc="calls")
     store = A.need(A.call_nodes("self.__dict__.__setitem__"), "__dict__.__setitem__ in Data.__setattr__")
     t = A.tests(lambda t: isinstance(t, ast.BoolOp) and isinstance(t.op, ast.Or) and
                 {src(v).replace("(", "").replace(")", "") for v in t.values} == {"key in self.__dict__", "REO_IdentPub.matchkey"})
